@@ -530,6 +530,14 @@ def rule_r5(chk, db):
            any(callee_def(t2).endswith("store_all_unlimited") for _, t2, _ in flow.backward(body, w["rv"]["ops"][0]).calls)]
     if not oks:
         raise AnchorMissing("extract_full_body: no Ok(bytes) return derived from store_all_unlimited")
+    # ... and nothing else is ever returned as "the body": an Ok whose bytes do not come from reading the body to its end would let the
+    # unread body through (and the digest of the empty string stand in for it)
+    def _whole_body(w):
+        sl_ = flow.backward(body, w["rv"]["ops"][0], at=w["bi"])
+        return any(callee_def(t2).endswith("store_all_unlimited") or callee_def(t2).endswith("::Body::bytes") for _, t2, _ in sl_.calls)
+    unread = [w["bi"] for w in flow.return_writes(body) if w["kind"] == "Ok" and w["bi"] not in oks and not _whole_body(w)]
+    chk.verdict(not unread, "R5", "body-is-what-was-read", body.loc(unread[0]) if unread else body.loc(sbi),
+                "extract_full_body can answer Ok with bytes that were not read from the request body (the body is left unread on that path)")
     ok = flow.must_pass(body, oks, cmp_edges | empty_edges, start=sbi)
     chk.verdict(ok, "R5", "length-check", body.loc(found[0][0]),
                 "a non-empty buffered body can be returned without passing the `len == Content-Length` outcome")
